@@ -40,8 +40,11 @@ def base(fam):
     return secs
 
 
-def render(secs, pre="", post=""):
+def render(secs, pre="", post="", layout=0):
+    """layout 0: as listed; 1: sections and their entries in reverse order (the order carries no meaning)"""
     out = [pre] if pre else []
+    if layout == 1:
+        secs = [(name, list(reversed(items))) for name, items in reversed(secs)]
     for name, items in secs:
         out.append("[%s]" % name)
         for kv in items:
@@ -335,13 +338,17 @@ def main(prop, tier, seed):
             run.notes["shipped_models_accepted"] = len(shipped)
             # ---- every malformation operator
             for o in sorted(ops, key=lambda o: o["id"]):
+                variants = []
                 for vi, (fam, fn) in enumerate(OPS[o["id"]]):
                     secs = base(fam)
                     if getattr(fn, "raw", False):
-                        text = fn(render(secs))
+                        variants.append((vi, fam, fn(render(secs))))
                     else:
                         fn(secs)
-                        text = render(secs)
+                        variants.append((vi, fam, render(secs)))
+                        if tier == "thorough":      # the same malformed model with its sections and entries listed in reverse order
+                            variants.append((vi + 100, fam, render(secs, layout=1)))
+                for vi, fam, text in variants:
                     for route, got in (("api", run_api(text)), ("cli", run_cli_file(text, d))):
                         run.evaluations += 1
                         run.replayed += 1
